@@ -378,6 +378,20 @@ func check(id, tier string) int {
 	sem := make(chan struct{}, 16)
 	var wg sync.WaitGroup
 	for _, lp := range pl.Lanes {
+		if only := os.Getenv("VERIF_ONLY_LANE"); only != "" && only != lp.Lane {
+			continue // development aid: run a single lane
+		}
+		if lp.Lane == "fuzz" {
+			if n, err := strconv.Atoi(os.Getenv("VERIF_FUZZ_EXECS")); err == nil && n > 0 {
+				lp.Cases = n
+			}
+			wg.Add(1)
+			go func(lp lanePlan) {
+				defer wg.Done()
+				runFuzzLane(b, m, id, tier, sd, lp)
+			}(lp)
+			continue
+		}
 		bin, err := b.child(lp.Lane)
 		if err != nil {
 			fmt.Println("BROKEN: " + err.Error())
@@ -484,6 +498,79 @@ func runShard(b *builder, m *merged, id, tier string, sd int64, lp lanePlan, sh 
 	m.mu.Lock()
 	m.inconc = append(m.inconc, fmt.Sprintf("%s lane shard %d: too many restarts", lp.Lane, sh))
 	m.mu.Unlock()
+}
+
+// runFuzzLane runs Go's native fuzzer on the harness' fuzz target from a scratch copy of the
+// harness (crashers land in the copy, never in /verif) for lp.Cases executions.
+func runFuzzLane(b *builder, m *merged, id, tier string, sd int64, lp lanePlan) {
+	dir := filepath.Join(b.work, "fuzzcopy")
+	if out, err := exec.Command("cp", "-r", filepath.Join(verifDir, "harness"), dir).CombinedOutput(); err != nil {
+		m.mu.Lock()
+		m.inconc = append(m.inconc, "fuzz lane: copying the harness failed: "+string(out))
+		m.mu.Unlock()
+		return
+	}
+	if b.modfile != "" {
+		gm, _ := os.ReadFile(b.modfile)
+		os.WriteFile(filepath.Join(dir, "go.mod"), gm, 0o644)
+	}
+	cmd := exec.Command("go", "test", "-tags", "verif", "-run", "^$", "-fuzz", "FuzzDecode", "-fuzztime", fmt.Sprintf("%dx", lp.Cases), "./fuzz")
+	cmd.Dir = dir
+	cmd.Env = goEnv()
+	timeout := time.Duration(lp.TimeoutS) * time.Second
+	if timeout == 0 {
+		timeout = time.Hour
+	}
+	done := make(chan struct{})
+	var out []byte
+	var err error
+	go func() { out, err = cmd.CombinedOutput(); close(done) }()
+	select {
+	case <-done:
+	case <-time.After(timeout):
+		if cmd.Process != nil {
+			cmd.Process.Kill()
+		}
+		<-done
+		m.mu.Lock()
+		m.inconc = append(m.inconc, fmt.Sprintf("fuzz lane: wall-clock watchdog (%s) fired", timeout))
+		m.mu.Unlock()
+		return
+	}
+	log := string(out)
+	execs, interesting := int64(0), int64(0)
+	for _, l := range strings.Split(log, "\n") {
+		if i := strings.Index(l, "execs: "); i >= 0 {
+			fmt.Sscanf(l[i:], "execs: %d", &execs)
+		}
+		if i := strings.Index(l, "(total: "); i >= 0 {
+			fmt.Sscanf(l[i:], "(total: %d", &interesting)
+		}
+	}
+	m.mu.Lock()
+	defer m.mu.Unlock()
+	m.counters["evaluations"] += execs
+	m.counters["fuzz_executions"] += execs
+	m.counters["fuzz_corpus_entries_with_new_coverage"] += interesting
+	if err == nil && strings.Contains(log, "PASS") {
+		return
+	}
+	if execs == 0 && !strings.Contains(log, "Failing input") && !strings.Contains(log, "C04 violation") {
+		m.inconc = append(m.inconc, "fuzz lane did not run: "+trunc(log, 600))
+		return
+	}
+	// a crasher: find the input the fuzzer wrote
+	detail := trunc(log[max(0, len(log)-3000):], 3000)
+	extra := map[string]any{}
+	for _, l := range strings.Split(log, "\n") {
+		if i := strings.Index(l, "testdata/fuzz/FuzzDecode/"); i >= 0 {
+			name := strings.Fields(l[i:])[0]
+			if c, err := os.ReadFile(filepath.Join(dir, "fuzz", name)); err == nil {
+				extra["fuzz_corpus_file"] = string(c)
+			}
+		}
+	}
+	m.violations = append(m.violations, violation{Property: id, Lane: "fuzz", Tier: tier, Seed: sd, Case: -1, Kind: "fuzz-crasher", Detail: detail, Extra: extra})
 }
 
 // raceBlocks splits a race log into report blocks and de-duplicates them by the
@@ -815,6 +902,13 @@ func replay(path string) int {
 	if lane == "" {
 		lane = "plain"
 	}
+	fuzzArg := ""
+	if lane == "fuzz" {
+		lane = "plain"
+		if s, ok := v.Extra["fuzz_corpus_file"].(string); ok {
+			fuzzArg = s
+		}
+	}
 	bin, err := b.child(lane)
 	if err != nil {
 		fmt.Println("BROKEN: " + err.Error())
@@ -832,7 +926,9 @@ func replay(path string) int {
 	outPath := filepath.Join(b.work, "replay.out")
 	logPath := filepath.Join(b.work, "replay.log")
 	args := []string{"-prop", v.Property, "-tier", v.Tier, "-seed", strconv.FormatInt(v.Seed, 10), "-lane", lane, "-out", outPath, "-cursor", filepath.Join(b.work, "replay.cur"), "-verbose"}
-	if v.Case >= 0 {
+	if fuzzArg != "" {
+		args = append(args, "-arg", fuzzArg, "-only", "0")
+	} else if v.Case >= 0 {
 		args = append(args, "-only", strconv.Itoa(v.Case))
 	} else {
 		// a whole shard (race reports are not attributable to one case)
